@@ -27,8 +27,9 @@ BMP = ["\u8def", "\u0420\u043e\u0441\u0441\u0438\u044f", "\u65e5\u672c\u8a9e \u3
 ASTRAL = ["\U0001f600", "a\U0001f30db", "\U00010348", "\U0001f1ec\U0001f1e7", "\U0002a6d6x"]
 MULTILINE = ["line1\nline2", "select a,\n  b\nfrom t", "\nlead", "trail\n", "a\n\nb", "x\n# y\nz", "a\n  END\nb"]
 LOOKALIKE = ["(not an expr)", "[notabinding]", "{a,b}", "/notregex/", "x'i", "( [a] = 1 )", "[a] [b]", "/a/i", "NOT (x)", "(", "[x", "/"]
-QUOTES1 = ["it's", "d'Artagnan", "'", "'x'", "a 'b' c", "''"]
-QUOTES2 = ['say "hi"', '"', '"x"', 'a "b" c', '""', '6" pipe']
+QUOTES1 = ["it's", "d'Artagnan", "'", "'x'", "a 'b' c", "''", "'+proj=longlat'", "'a b'", "x'"]
+QUOTES2 = ['say "hi"', '"', '"x"', 'a "b" c', '""', '6" pipe', '"+datum=WGS84"', '"a b"']
+WRAPPED = ["'x'", '"x"', "'+proj=longlat'", '"+datum=WGS84"', "'a b'", '"a b"', "''", '""', "'it'", '"7"', "'#fff'", "'[a]'"]
 BACKSL = ["a\\b", "\\d+", "C:\\x", "\\\\server\\share", "a\\ b", "\\n"]
 
 _ALPHA = st.characters(
@@ -40,10 +41,10 @@ _RANDOM_ASCII = st.text(alphabet=st.sampled_from(list(" abcXYZ019_-.,;:=%&<>*?!@
 CLASS_POOLS = {
     "word": WORDS, "spaced": SPACED, "sql": SQL, "path": PATHS, "hashy": HASHY, "reserved": RESERVED,
     "digits": DIGITS, "latin1": LATIN1, "bmp": BMP, "astral": ASTRAL, "multiline": MULTILINE,
-    "lookalike": LOOKALIKE, "squote": QUOTES1, "dquote": QUOTES2, "backslash": BACKSL,
+    "lookalike": LOOKALIKE, "squote": QUOTES1, "dquote": QUOTES2, "backslash": BACKSL, "wrapped": WRAPPED,
 }
 ORDER = ["word", "spaced", "sql", "path", "hashy", "reserved", "digits", "empty", "latin1", "bmp", "astral",
-         "multiline", "lookalike", "squote", "dquote", "backslash", "random", "random_ascii"]
+         "multiline", "lookalike", "squote", "dquote", "backslash", "wrapped", "random", "random_ascii"]
 
 
 def is_lookalike(s: str) -> bool:
